@@ -3,6 +3,8 @@ package props
 import (
 	"fmt"
 	"go/token"
+	"sort"
+	"strings"
 	"go/types"
 
 	"golang.org/x/tools/go/ssa"
@@ -425,22 +427,46 @@ func checkDListPop(c rc, pop, stackPop *ssa.Function, typ string) {
 					}
 				}
 				if !okR {
+					// what is handed back instead: which of the nodes the walk stands on are
+					// copied into the returned cell (part of the finding's identity, so that a
+					// different wrong answer is a different finding)
+					src := map[string]bool{}
+					direct := false
+					edges, covered := 0, 0
+					if ph, ok := base.(*ssa.Phi); ok {
+						edges = len(ph.Edges)
+					}
 					for _, in := range path.Instrs(pop) {
-						if st, ok := in.(*ssa.Store); ok && st.Addr == ssa.Value(cell) {
+						if st, ok := in.(*ssa.Store); ok && st.Addr == ssa.Value(cell) && (st.Block() == u.Block() || reachableFrom(st.Block(), u.Block())) {
 							if ld, ok := st.Val.(*ssa.UnOp); ok && ld.Op == token.MUL {
-								same := ld.X == base
+								if ld.X == base {
+									direct = true
+								}
 								if ph, ok := base.(*ssa.Phi); ok {
 									for _, e := range ph.Edges {
 										if e == ld.X {
-											same = true
+											covered++
+											if h, isH := e.(*ssa.FieldAddr); isH && isReceiverHead(pop, h) {
+												src["before the walk"] = true
+											} else {
+												src["inside the walk"] = true
+											}
 										}
 									}
 								}
-								if same {
-									what = "a copy of the node BEFORE the one unlinked (`node = *tmp` with the unlink `tmp.next = nil`)"
-								}
 							}
 						}
+					}
+					switch {
+					case direct || (edges > 0 && covered >= edges):
+						what = "a copy of the node before the one unlinked"
+					case covered > 0:
+						var names []string
+						for n := range src {
+							names = append(names, n)
+						}
+						sort.Strings(names)
+						what = "a copy of the node before the one unlinked, taken " + strings.Join(names, " / ") + " only (an empty node otherwise)"
 					}
 				}
 			} else if isNext(rv, base) {
@@ -463,7 +489,11 @@ func checkDListPop(c rc, pop, stackPop *ssa.Function, typ string) {
 				break
 			}
 		}
-		c.ob("RS2", fname, "returns the node it unlinks", p.InstrPos(u), okU && nR > 0, "Pop unlinks x.next but hands back "+what+": the linked stack's Pop returns the value below the top (NewLinked(\"foo\"); Push(\"bar\"); Pop() yields \"foo\")")
+		obj := "returns the node it unlinks"
+		if !(okU && nR > 0) {
+			obj += " (does: " + what + ")"
+		}
+		c.ob("RS2", fname, obj, p.InstrPos(u), okU && nR > 0, "Pop unlinks x.next but hands back "+what+": the linked stack's Pop returns the value below the top (NewLinked(\"foo\"); Push(\"bar\"); Pop() yields \"foo\")")
 	}
 	// (b) the single-node path: a return no unlink reaches
 	okS := false
